@@ -97,37 +97,74 @@ def run(ctx, chk):
                fn="cbor_empty_callbacks", key="empty:" + name, nontrivial=False)
     cf_off = prog.field_offset("_cbor_decoder_context", "creation_failed")
     se_off = prog.field_offset("_cbor_decoder_context", "syntax_error")
-    for field, (ctor, marker, setter) in LEAF.items():
+    T_ = prog.enum("cbor_type")
+    IWn = {"8": 0, "16": 1, "32": 2, "64": 3}
+    FWn = {"float2": 1, "float4": 2, "float8": 3}
+    CTRL = {"null": 22, "undefined": 23}
+    for field in LEAF:
         fn = wired.get(field)
         if fn is None:
             continue
         f = prog.fn(fn)
         where = "%s:%d" % (f.file, f.line)
+        rs = tables.result_states(prog, eff, fn, at_call="_cbor_builder_append")
         nok = 0
-        for k, pa in enumerate(cache.get(fn)):
-            cs = [e for e in pa.events if e.kind == "call" and e.ckind == "lib" and (e.callee.startswith("cbor_new_") or e.callee.startswith("cbor_build_"))]
-            if not cs or not pa.st.known_nonnull(cs[0].res):
-                continue
-            item = cs[0].res
-            ok = len(cs) == 1 and cs[0].callee == ctor
-            if ok and ctor == "cbor_build_bool":
-                a0 = cs[0].args[0]
-                while isinstance(a0, tuple) and a0[0] == "cast":
-                    a0 = a0[3]
-                ok = a0 == ("arg", 1)
-            if ok and marker:
-                m = pa.calls(marker)
-                other = [e for e in pa.events if e.kind == "call" and e.callee in ("cbor_mark_uint", "cbor_mark_negint") and e.callee != marker]
-                ok = len(m) == 1 and m[0].args[0] == item and not other
-            if ok and setter:
-                s_ = pa.calls(setter)
-                ok = len(s_) == 1 and s_[0].args == (item, ("arg", 1))
-            app = pa.calls("_cbor_builder_append")
-            ok = ok and len(app) == 1 and app[0].args[0] == item
+        for k, r in enumerate(rs):
+            d, pa, item = r["desc"], r["path"], r["item"]
             nok += 1
-            chk.ob("C02.wiring", "%s -> %s: builds %s%s%s with the callback's value" % (field, fn, ctor, "+" + marker if marker else "",
-                                                                                   "+" + setter if setter else ""), ok, where, fn=fn, key="leaf:%s:%d" % (field, k),
-                   path=pa.block_lines() if not ok else None)
+            det = []
+            if d["refcount"] != ("c", 1):
+                det.append("reference count %s" % (d["refcount"],))
+            if field.startswith(("uint", "negint")):
+                bits = field.lstrip("uintneg")
+                wt = T_["CBOR_TYPE_NEGINT"] if field.startswith("negint") else T_["CBOR_TYPE_UINT"]
+                if d["type"] != ("c", wt):
+                    det.append("item type %s, field denotes %s" % (d["type"], "negative" if wt else "unsigned"))
+                if d["meta0"] != ("c", IWn[bits]):
+                    det.append("width %s, field denotes %s bits" % (d["meta0"], bits))
+                pay = (d.get("payload") or {}).get("i" + bits)
+                if pay != ("arg", 1):
+                    det.append("stored value %s is not the callback's argument" % (pay,))
+            elif field in FWn:
+                ty = "double" if field == "float8" else "float"
+                if d["type"] != ("c", T_["CBOR_TYPE_FLOAT_CTRL"]) or d["meta0"] != ("c", FWn[field]):
+                    det.append("type/width %s/%s, field denotes %s" % (d["type"], d["meta0"], field))
+                pay = (d.get("payload") or {}).get(ty)
+                if pay != ("arg", 1):
+                    det.append("stored value %s is not the callback's argument" % (pay,))
+            else:
+                if d["type"] != ("c", T_["CBOR_TYPE_FLOAT_CTRL"]) or d["meta0"] != ("c", 0):
+                    det.append("not a simple-value item: type %s width %s" % (d["type"], d["meta0"]))
+                c = d.get("ctrl")
+                if field in CTRL:
+                    if c != ("c", CTRL[field]):
+                        det.append("simple value %s, %s is %d" % (c, field, CTRL[field]))
+                else:
+                    # boolean: 21 when the argument is true, 20 when false
+                    tv = None
+                    for t0, tr in pa.st.truth.items():
+                        x = t0
+                        while isinstance(x, tuple) and x[0] == "cast":
+                            x = x[3]
+                        if x == ("arg", 1):
+                            tv = tr
+                    want = {True: 21, False: 20}.get(tv)
+                    cc = c
+                    while isinstance(cc, tuple) and cc[0] == "cast":
+                        cc = cc[3]
+                    okb = want is not None and c == ("c", want)
+                    if not okb and isinstance(cc, tuple) and cc[0] == "sel":
+                        cond = cc[1]
+                        while isinstance(cond, tuple) and cond[0] == "cast":
+                            cond = cond[3]
+                        okb = cond == ("arg", 1) and cc[2] == ("c", 21) and cc[3] == ("c", 20)
+                    if not okb:
+                        det.append("boolean %s stored as simple value %s" % (tv, c))
+            apps = [e for e in pa.events if e.kind == "call" and e.callee == "_cbor_builder_append" and e.depth == 0]
+            if len(apps) != 1:
+                det.append("%d hand-offs" % len(apps))
+            chk.ob("C02.wiring", "%s -> %s: the item handed to the parent has the kind, width and value the field denotes" % (field, fn),
+                   not det, where, fn=fn, key="leaf:%s:%d" % (field, k), detail="; ".join(det), path=pa.block_lines() if det else None)
         chk.ob("C02.wiring", "%s has a success path" % fn, nok >= 1, where, fn=fn, key="leafpath:" + field, nontrivial=False)
     # 3. counters
     for field, (ctor, takes, cnt) in OPENERS.items():
@@ -284,4 +321,9 @@ def run(ctx, chk):
                     bad.append("returned")
             chk.ob("C02.no-buffer-ref", "%s uses its %s pointer only as a copy source" % (fn, p["name"]), not bad,
                    "%s:%d" % (f.file, f.line), fn=fn, key="buf:%s" % fn, detail="; ".join(sorted(set(bad))[:3]))
+    # 7. the nesting limit is part of the accepted profile: accepted up to L, refused at L (shared with C19)
+    chk.rule("C02.gate", "the decoding stack accepts a frame at every depth below the configured limit and refuses exactly at it")
+    from props.c19 import check_gate
+    L = int(prog.values["CBOR_MAX_STACK_SIZE"])
+    check_gate(chk, prog, eff, L, "default(L=%d)" % L, rule="C02.gate")
     chk.exhaustive = True
